@@ -175,3 +175,6 @@ impl core::ops::Sub<Instant> for Instant {
 }
 
 pub mod actix_rt { pub mod time { pub use super::super::Instant; } }
+
+/// rule R24 (`f?` events): 1 if the traced call returned Ok, 0 otherwise
+pub open spec fn r24_bit(b: bool) -> int { if b { 1 } else { 0 } }
